@@ -213,8 +213,15 @@ def body_from_data_contract():
         schemas = SObj(Schemas, {"classes_by_reference": SOpaque("cbr"), "dependencies": SOpaque("deps"),
                                  "classes_by_name": SDict({"M": prop, "Other": other}), "models_to_process": SList([]),
                                  "errors": SList([])})
-        I.contracts["openapi_python_client.parser.properties:property_from_data"] = lambda I2, a, k: STuple([prop, k["schemas"]])
-        media = SOpaque("media", attrs={"media_type_schema": SOpaque("schema")})
+        # the schema is written as a bare reference or as a schema object (inline model, or a wrapper around a reference);
+        # what comes back is the registered record itself (just made) or an evolved copy of it (found through a reference)
+        from openapi_python_client import schema as oai
+        ref = SObj(oai.Reference, {"ref": "#/components/schemas/M"})
+        mschema = ref if I.branch_free() else SObj(oai.Schema, {"allOf": SList([ref]) if I.branch_free() else SList([]),
+                                                                "title": None, "type": None})
+        returned = prop if I.branch_free() else SObj(ModelProperty, dict(prop.fields))
+        I.contracts["openapi_python_client.parser.properties:property_from_data"] = lambda I2, a, k: STuple([returned, k["schemas"]])
+        media = SOpaque("media", attrs={"media_type_schema": mschema})
         pairs = SList([STuple([ct, media])])
         content = SOpaque("content", cls=dict, attrs={"items": SFunc("model", lambda I2, a, k: pairs)})
         content.length = lambda I2: 1
@@ -259,7 +266,9 @@ def body_from_data_contract():
     cl2 = Clause("multipart-mark-is-sticky", sticky,
                  statement="a model used as a multipart body is (re-)registered with is_multipart_body = True; used with any other "
                            "media type it keeps the mark it had (an earlier operation's to_multipart is never taken away, so the "
-                           "model's module does not depend on the order of the operations); every other class entry is kept",
-                 props=["C12", "C08", "C03"])
+                           "model's module does not depend on the order of the operations); every other class entry is kept; "
+                           "the same whether the schema is a bare reference or a schema object (wrapper around a reference, "
+                           "inline model) and whether the record handed back is the registered one or a copy of it",
+                 props=["C12", "C08", "C03", "C17"])
     return FnContract(f"{B}:body_from_data", [Case("two-media-types", make, [cl], raises=(), props=["C03", "C07", "C16"]),
-                                              Case("model-body", make_model, [cl2], raises=(), props=["C12", "C08", "C03"])])
+                                              Case("model-body", make_model, [cl2], raises=(), props=["C12", "C08", "C03", "C17"])])
